@@ -187,7 +187,7 @@ PROPS = {
         "assumptions": [],
     },
     "C10": {
-        "modules": ["Ezpz.Properties.C10"],
+        "modules": ["Ezpz.Properties.C10", "Ezpz.Proofs.TextMethods"],
         "suites": [
             {"suite": "trace", "quick": (1500, "planted,prio,contra,linear,collapsed,pinned,resolve,large"), "thorough": (15000, "planted,prio,contra,linear,caps,malformed,collapsed,pinned,resolve,large")},
         ],
@@ -195,7 +195,7 @@ PROPS = {
             {"bin": "oracle_c10", "min_stats": {"systems": 0.5, "both_ok": 0.479, "repeated_calls": 1.0, "texts": 0.125, "text_runs_under_other_configs": 0.625, "of_which_fail": 0.495, "fresh_thread_solves": 0.781}, "quick": ("{seed}", "4000"), "thorough": ("{seed}", "20000"), "digest_twice": True, "second_args": ["rev"]},
         ],
         "partial": ["analysis_only_adds_failure_partial: proved under the hypothesis hok that plain and analysed level runs agree at EVERY (priority value, call index) pair - stronger than 'the analysis succeeds at every attempted level'; analysis_only_adds_failure_levels needs the agreement only for the j-th level of the list at call index j (levels after the first unsatisfied one are still included, so an analysis failure at a level that is never attempted falsifies the hypothesis although the conclusion holds); without any such hypothesis the statement is false of the code (known finding F10)",
-                    "'the text front-end's solve methods agree': the four methods (solve, solve_with_config, solve_with_config_analysis, solve_no_metadata) are not modelled separately - the model has one text pipeline; their agreement with each other and with the library is checked on the real code only (oracle_c10: default and five non-default configurations, most of which make the solve fail)",
+                    "'the text front-end's solve methods agree': the four methods (solve, solve_with_config, solve_with_config_analysis, solve_no_metadata) and their two private helpers are modelled in Model/TextMethods.lean; their call structure is regenerated from executor.rs on every run (Gen.TEXT_METHODS, tools/extract.py) and pinned by text_methods_shape; proved for every scalar type and every oracle (Proofs/TextMethods.lean): solve = solve_with_config(default); solve_with_config returns exactly solve_no_metadata's fields plus the labelling of its final values, fails with the same failure, and for a system built from the problem never panics in the labelling (withConfig_of_noMetadata_ok/_error/_panic, withConfig_label_total); since every text constraint has priority 0 the solve is single-level, F10 cannot occur, and the analysis clause holds with NO hypothesis: text_plain_fails_then_analysis_fails, text_analysis_only_adds_failure (same labelled outcome plus analysis, or a failure, or a panicking analysis step - never a different outcome), text_analysis_ok_then_plain_ok; bit-identity of the f64 results of the real methods is checked on the real code (oracle_c10: default and five non-default configurations, most of which make the solve fail)",
                     "bit-reproducibility of faer and libm across processes is sampled (digest of all results compared between two fresh processes), not proved"],
         "rule": "planted, linear, contradictory, prioritised and collapsed-guess systems: two calls in one process and two fresh processes (digest) must agree bit for bit including the ordered warnings list; solve vs solve_analysis field by field; plus generated problem texts through the text front-end: solve() twice, solve_with_config, solve_with_config_analysis, solve_no_metadata and the library call on the same constraints and guesses must agree bit for bit (labelled values included)",
         "assumptions": ["faer is built without the rayon feature (extracted from Cargo.toml on this run): sequential linear algebra"],
